@@ -8,7 +8,7 @@
 (*                the tolerance                                                             *)
 (* and the invariants say they describe the same partition.  All arithmetic is exact:      *)
 (* values and coordinate steps are integers, the tolerance is a rational <<num, den>>.     *)
-EXTENDS PlateauDefs
+EXTENDS PlateauDefs, TLC
 
 CONSTANTS MaxLen,   \* maximal number of points
           Vals,     \* set of integer data values
@@ -81,6 +81,9 @@ CollapseDisjoint ==
     \A r, q \in MaxRuns : r[2] < q[1] => XAt(r[2]) + 1 <= XAt(q[1])   \* integer "next after"
 
 TypeOK == /\ Len(gid) = Len(ys) /\ Len(dxs) = Len(ys) - 1
+
+(* export of complete behaviours for replay into the implementation (-simulate, -workers 1) *)
+EmitCase == (Len(ys) = MaxLen) => PrintT(<<"CASE", ys, dxs, atol, SortRuns(MaxRuns)>>)
 
 -----------------------------------------------------------------------------
 =============================================================================
